@@ -179,14 +179,23 @@ let run_dup (parts : string list) : string =
 let () = register "dup" run_dup
 
 (* ---------- kind: streams (C14, round 4) ----------
-   case:   tr=<doq|doh> m=<limit> k=<abandoned> fault=<lie|silent> conc=<0|1> dl=<ms> after=<n>
-   result: bad=<E..> after=<R..> late=0 || spec=..       (extracted [sc_case], Net/Streams.v) *)
+   case:   tr=<doq|doh|h3> m=<limit> k=<abandoned> fault=<lie|silent|nofin> conc=<0|1> dl=<ms> after=<n>
+           [fin=<now|never|late|reset>] [aconc=<0|1>]
+   result: bad=<E..> after=<R..> late=0 left=<n> || spec=..   (extracted [sc_case2] with the policy of the code,
+           Net/Streams.v: the release step on every exit of exchangeStream) *)
 let run_streams (parts : string list) : string =
   let f = fields parts in
-  let (bad, aft) = sc_case true (nat_of_int (ifld f "m")) (nat_of_int (ifld f "k")) (nat_of_int (ifld f "after")) in
+  let answered = (match fld_opt f "fin" with
+    | None | Some "now" -> SvFin | Some "never" -> SvNoFin | Some "late" -> SvLateFin | Some "reset" -> SvResetAfter
+    | Some s -> failwith ("streams: unknown fin " ^ s)) in
+  (* nofin (doh, h3): an HTTP message whose stream never ends is not a reply: the exchange ends at its deadline *)
+  let abandoned = (match fld f "fault" with "lie" | "nofin" -> SvLie | _ -> SvSilent) in
+  let ((bad, aft), left) = sc_case2 sc_code (nat_of_int (ifld f "m")) answered abandoned
+      (nat_of_int (ifld f "k")) (nat_of_int (ifld f "after")) in
   let str l = String.concat "" (List.map (fun b -> if b then "R" else "E") l) in
-  Printf.sprintf "bad=%s after=%s late=0 || spec=%s" (str bad) (str aft)
-    (if List.for_all (fun b -> b) aft && not (List.exists (fun b -> b) bad) then "ok" else "FAIL:c14-stream-capacity")
+  Printf.sprintf "bad=%s after=%s late=0 left=%d || spec=%s" (str bad) (str aft) (int_of_nat left)
+    (if List.for_all (fun b -> b) aft && not (List.exists (fun b -> b) bad) && int_of_nat left = 0 then "ok"
+     else "FAIL:c14-stream-capacity")
 
 let () = register "streams" run_streams
 
@@ -206,3 +215,26 @@ let run_stall (parts : string list) : string =
   if in_time then "res=ERR late=0 || spec=ok" else "res=ANY late=- || spec=ok"
 
 let () = register "stall" run_stall
+
+(* ---------- kind: idlimit (C14, round 6) ----------
+   case:   tr=<udp|tcpp> q0=<first wire id> n=<exchanges>
+   result: res=<R..> late=0 acc=<connections> || spec=..
+   How many exchanges ONE connection carries comes from the extracted connection LTS of C05 ([pl_history_outcomes]: n
+   exchanges, each answered, on a connection born at q0 - the first one refused with end-of-life ends the count); the
+   exchange that meets the exhausted (reused) connection is retried on a new one (exchange LTS: failure on a reused
+   connection, healthy server => dial => reply), so every exchange is a reply and the connections are ceil(n / count). *)
+let run_idlimit (parts : string list) : string =
+  let f = fields parts in
+  let tcp = (fld f "tr" <> "udp") in
+  let q0 = ifld f "q0" and n = ifld f "n" in
+  let evs = List.concat (List.init n (fun i -> [PlEvStart (n_of_int (256 + i)); PlEvReplyTo (n_of_int i, n_of_int (i + 1))])) in
+  let (outs, _) = pl_history_outcomes tcp (n_of_int q0) evs in
+  let rec lead = function (PlOMsg (_, true), _) :: r -> 1 + lead r | _ -> 0 in
+  let per_conn = lead outs in
+  if per_conn = 0 then "res=" ^ String.make n 'E' ^ " late=0 acc=1 || spec=FAIL:c14-connection-born-exhausted"
+  else
+    let retried_ok = (match run_case TPipe (not tcp) [SWriteErr] [] with Some o -> o.o_class = RReply | None -> false) in
+    Printf.sprintf "res=%s late=0 acc=%d || spec=%s" (String.make n (if retried_ok then 'R' else 'E'))
+      ((n + per_conn - 1) / per_conn) (if retried_ok then "ok" else "FAIL:c14-exhausted-connection-not-replaced")
+
+let () = register "idlimit" run_idlimit
